@@ -1110,7 +1110,11 @@ func (r *Run) conv(dst, src types.Type, x Value) Value {
 			}
 			if db.Kind() == types.Float64 {
 				if x.T != nil {
-					panic("sym int→float")
+					op := "(_ to_fp_unsigned 11 53) RNE"
+					if x.Signed {
+						op = "(_ to_fp 11 53) RNE"
+					}
+					return FSym{T: r.TT.mk(op, -64, 0, "", x.T)}
 				}
 				if x.Signed {
 					return float64(int64(signExtend(x.C, x.W)))
@@ -1165,6 +1169,17 @@ func (r *Run) conv(dst, src types.Type, x Value) Value {
 			return Slice{S: append([]Value(nil), x.B...)}
 		}
 		return x
+	case FSym:
+		if db, ok := du.(*types.Basic); ok {
+			if w, sg, ok := basicInfo(db); ok {
+				op := fmt.Sprintf("(_ fp.to_ubv %d) RTZ", w)
+				if sg {
+					op = fmt.Sprintf("(_ fp.to_sbv %d) RTZ", w)
+				}
+				return Num{W: w, Signed: sg, T: r.TT.mk(op, w, 0, "", x.T)}
+			}
+			return x
+		}
 	case float64:
 		if db, ok := du.(*types.Basic); ok {
 			if w, s, ok := basicInfo(db); ok {
@@ -1500,8 +1515,12 @@ func (r *Run) fsymBinop(op token.Token, x, y Value) Value {
 		o = "fp.eq"
 	case token.NEQ:
 		o, neg = "fp.eq", true
+	case token.ADD, token.SUB, token.MUL, token.QUO:
+		// arithmetic on symbolic floats is encoded (round-nearest-even); kevo uses it only to format log lines
+		fo := map[token.Token]string{token.ADD: "fp.add RNE", token.SUB: "fp.sub RNE", token.MUL: "fp.mul RNE", token.QUO: "fp.div RNE"}[op]
+		return FSym{T: r.TT.mk(fo, -64, 0, "", a, b)}
 	default:
-		panic("symbolic float arithmetic is outside the engine: " + op.String())
+		panic("symbolic float operation is outside the engine: " + op.String())
 	}
 	t := r.TT.mk(o, 0, 0, "", a, b)
 	if neg {
